@@ -58,13 +58,15 @@ def _mk_zshift(periodic):
         nx, ny = 1, 1
         regs = []
         trapz_calls = []
-        fp, psiv = env.real("fpol"), None
+        fpol_calls = []
         for rid in range(2):
             r = stub_region(nx, ny, True)
             r.name = "reg%d" % rid
             r.myID = rid
             r.contours = [Contour(env, "r%dc%d" % (rid, i), ny) for i in range(2 * nx + 1)]
             r.equilibriumRegion = types.SimpleNamespace(psi=None, name="reg%d" % rid)
+            # radial psi labels of the contours (a value per contour; fpol must be evaluated at the psi of the points, not looked up by some index)
+            r.psi_vals = [env.real("psi_label_r%d_%d" % (rid, i)) for i in range(2 * nx + 1)]
             regs.append(r)
         regs[0].yGroupIndex, regs[1].yGroupIndex = 0, 1
         regs[0].connections = {"inner": None, "outer": None, "lower": 1 if periodic else None, "upper": 1}
@@ -82,7 +84,13 @@ def _mk_zshift(periodic):
             return f
 
         def fpol(psi):
-            return fp
+            # fpol is a function of psi: one value per element of the argument (the same argument array gives the same values)
+            flat = list(numpy.asarray(psi, dtype=object).flat)
+            key = ("fpol", tuple(id(x) for x in flat))
+            if key not in vals:
+                vals[key] = numpy.array([env.real("fpol_%d_%d" % (len(vals), k)) for k in range(len(flat))], dtype=object if sym else float)
+            fpol_calls.append((psi, vals[key]))
+            return vals[key] if numpy.ndim(psi) else vals[key][0]
 
         eqm_ = types.SimpleNamespace(psi=field("psi"), Bp_R=field("BR"), Bp_Z=field("BZ"), fpol=fpol)
         mp = types.SimpleNamespace(equilibrium=eqm_, regions={0: regs[0], 1: regs[1]})
@@ -140,11 +148,19 @@ def _mk_zshift(periodic):
         key = [k for k in vals if k[0] == "BR"]
         BR = [v for k, v in vals.items() if k[0] == "BR"][1]
         BZ = [v for k, v in vals.items() if k[0] == "BZ"][1]
+        psis = [v for k, v in vals.items() if k[0] == "psi"]
+        psi_fine = psis[1] if len(psis) > 1 else None      # psi evaluated at the fine points of this contour
+        # (the flux-surface label of this contour would do as well as psi at its points: both are "psi on this surface")
+        label = regs[0].psi_vals[1]
+        hit = [ret if numpy.ndim(arg) else ret[0] * numpy.ones(len(y), dtype=object if sym else float)
+               for (arg, ret) in fpol_calls if (psi_fine is not None and arg is psi_fine) or arg is label]
+        env.claim("fpol_evaluated_at_psi_of_this_flux_surface", len(hit) >= 1)
+        fpv = hit[0] if hit else fpol_calls[1][1] * numpy.ones(len(y), dtype=object if sym else float)
         for m in (0, 2):
             Rm = fine.positions[m, 0]
-            env.claim_eq("integrand^2=(fpol/R)^2/(R^2*Bp^2)", y[m] * y[m] * Rm ** 4 * (BR[m] ** 2 + BZ[m] ** 2), fp * fp)
+            env.claim_eq("integrand^2=(fpol(psi(R,Z))/R)^2/(R^2*Bp^2)", y[m] * y[m] * Rm ** 4 * (BR[m] ** 2 + BZ[m] ** 2), fpv[m] * fpv[m])
             if sym:
-                env.claim("sign(integrand)=sign(fpol)", core.implies(BR[m] ** 2 + BZ[m] ** 2 > 0, y[m] * fp >= 0))
+                env.claim("sign(integrand)=sign(fpol)", core.implies(BR[m] ** 2 + BZ[m] ** 2 > 0, y[m] * fpv[m] >= 0))
         env.claim("quadrature_abscissa_is_fine_distance", x is fine.distance)
         if periodic:
             sa = regs[0].ShiftAngle
